@@ -32,17 +32,3 @@ def c04_sparse_read_repeated_list_entry(fam, case, verdict):
     op = detail["op"]
     return op["op"] == "read" and has_repeated_list(op["key"])
 
-
-@matcher
-def c04_sparse_read_array_list(fam, case, verdict):
-    """sptensor.__getitem__ -> tt_renumber compares each key element with slice(None) by ==; for a NumPy array of two or
-    more entries that comparison is elementwise and its truth value raises.  Matches only: sparse_history, the failing
-    operation is a READ with a region key holding an index list SPELLED as a NumPy array of two or more entries, and the
-    failure is that ValueError (the read was refused, not answered wrongly)."""
-    if fam != "sparse_history":
-        return False
-    detail = getattr(verdict, "impl", None)
-    if not isinstance(detail, dict) or "op" not in detail:
-        return False
-    from harness.props.c04 import is_sparse_read_array_list
-    return is_sparse_read_array_list(detail["op"]) and "was rejected (ValueError: The truth value of an array" in verdict.what
